@@ -332,7 +332,7 @@ def run_real(xml, stream, parse_bad, yield_unrec, limit):
     from spv.obs import enc_concrete
     d = definitions.XtcePacketDefinition.from_xtce(io.BytesIO(xml))
     from spv import structural
-    snap0 = structural.definition_snapshot(d)
+    snap0 = structural.public_state(d)
     # input packets (for index mapping)
     pk, o = [], 0
     while o + 6 <= len(stream):
@@ -381,7 +381,7 @@ def run_real(xml, stream, parse_bad, yield_unrec, limit):
             out.append({"i": i, "kind": "packet", "items": items_of(y), "pos": y.raw_data.pos, "header": list(y.header.keys()),
                         "user_data": list(y.user_data.keys())})
     nw = sum(1 for w in rec if str(w.message).startswith(LEN_WARN))
-    return {"cls": "ran", "yields": out, "end": end, "warnings": nw, "definition_changed": structural.definition_snapshot(d) != snap0}
+    return {"cls": "ran", "yields": out, "end": end, "warnings": nw, "definition_changed": structural.public_state(d) != snap0}
 
 
 def concrete(req):
@@ -416,8 +416,8 @@ def judge(req, got):
         return "reproduced", "generator did not terminate"
     spec = req["spec"]
     inp = req["input"]
-    if got.get("definition_changed"):
-        return "reproduced", f"parsing the stream {inp['stream']['hex']} (template {inp['template']}) modified the definition object graph"
+    if got.get("definition_changed") and req.get("check_definition_unchanged"):
+        return "reproduced", f"parsing the stream {inp['stream']['hex']} (template {inp['template']}) modified the definition (its XML or a public attribute)"
     head = f"template {inp['template']} stream {inp['stream']['hex']} parse_bad_pkts={inp['parse_bad']} yield_unrecognized={inp['yield_unrec']}"
     gy = list(got["yields"])
     k = 0
